@@ -287,7 +287,7 @@ pub fn generate(run_seed: u64, tier: Tier) -> Scenario {
             if let Some(last) = segs.iter_mut().rev().find(|s| !s.stderr && s.len >= 2) {
                 let k = drng.range(1, (last.len / 2) as u64) as usize;
                 last.len -= k;
-                late = Some((600, k));
+                late = Some((*drng.pick(&[600u64, 1100, 1400]), k));
                 late_detached = true;
             }
         }
@@ -646,8 +646,9 @@ fn run_task(sc: &Scenario, env: &Env, stats: &mut RunStats) -> Result<Option<Vio
         // a late writer (one the cancellation did not reach, or one the task did not wait for) still
         // has its bytes to write: nothing of it may show up after the terminal frame, so look again
         // once its time has passed (no wait at all when the terminal frame came after the writer)
-        let _ = cancelled;
-        let until = late_ms + 250;
+        // the writer was launched at the latest when the cancellation arrived / the shell exited
+        let launched_by = if cancelled { cancel_after_ms.unwrap_or(0) } else { 0 };
+        let until = launched_by + late_ms + 400;
         while (t0.elapsed().as_millis() as u64) < until {
             engine.settle(10);
         }
